@@ -83,6 +83,8 @@ func specFromCase(cs CaseSpec) ScheduleSpec {
 		CallbackTxProb: float64(cs.I("cbtx", 0)) / 100.0,
 		KeepSilent: cs.I("keepsilent", 0) == 1,
 	}
+	sp.FFResets = int(cs.I("ffresets", 0))
+	sp.FFSingleServer = cs.I("ffsingle", 0) == 1
 	if cs.I("dupcontent", 0) == 1 {
 		sp.DupProb = 0.08
 		sp.EmptyProb = 0.04
@@ -269,6 +271,47 @@ func init() {
 		},
 		Run: func(cs CaseSpec) *CaseResult {
 			return runHistory(cs, func(nw *Network) []Monitor { return []Monitor{NewMonValidators()} }, nil)
+		},
+		PerCaseTimeout: 15 * time.Minute,
+	})
+}
+
+func init() {
+	register(&PropDef{
+		ID: "C13", Level: "exploration", Engine: "nodesim",
+		Rule: "one case = one seeded nodesim history with fast-sync: validators that lose their data and reset from an honest peer's anchor (any serving peer, chained resets), joiners with fast-sync enabled (with and without other-parent for their first event), anchors inside the six-round window of pending joins/leaves; after every step the blocks delivered by reset nodes (from anchor+1) are compared with the canonical chain of the full-history nodes, their round->validator-set function with a replay from the shipped history, and frames of the same round across nodes; non-trivial: at least one successful reset and >=3 blocks; distinct by history",
+		Assumptions: []string{"a reset node that can no longer insert what it receives simply stops delivering (not a violation)", "the resetting validator's own events are known to everybody before it loses its data (no self-fork)"},
+		MinNontrivial: 8,
+		Cases: func(tier string, seed int64) []CaseSpec {
+			cs := chainCases(tier, seed+86028121, 48, 640, true)
+			for i := range cs {
+				if cs[i].P["n"] < 3 {
+					cs[i].P["n"] = 4
+				}
+				cs[i].P["ffresets"] = int64(1 + i%3)
+				cs[i].P["fsjoin"] = int64(i % 2)
+				cs[i].P["ffsingle"] = int64((i / 2) % 2)
+				if cs[i].P["joins"] == 0 {
+					cs[i].P["joins"] = 1
+				}
+				cs[i].P["joins"] += int64(i % 2)
+				delete(cs[i].P, "rejoin")
+				cs[i].P["badger"] = 0
+			}
+			return cs
+		},
+		Run: func(cs CaseSpec) *CaseResult {
+			res := runHistory(cs, func(nw *Network) []Monitor {
+				a := NewMonAgreement()
+				a.IncludeReset, a.Prop = true, "C13"
+				v := NewMonValidators()
+				v.IncludeReset, v.Prop = true, "C13"
+				return []Monitor{a, v, NewMonFrames()}
+			}, nil)
+			if res.Counters["fastforward_ok"] == 0 {
+				res.Digests = nil // trivial for this property
+			}
+			return res
 		},
 		PerCaseTimeout: 15 * time.Minute,
 	})
